@@ -207,6 +207,126 @@ func c16ScanHTML(b []byte) c16Doc {
 	return d
 }
 
+// c16NoCommentForm is the token stream of a document as a parser sees it once comments are ignored: start/end tags and
+// the doctype as raw bytes, character data concatenated across comments; one newline directly behind a
+// <pre>/<textarea>/<listing> start tag is dropped (HTML parser rule) — but not when a comment stands in between.
+func c16NoCommentForm(b []byte) []string {
+	var out []string
+	z := xhtml.NewTokenizer(bytes.NewReader(b))
+	text := ""
+	flush := func() {
+		if text != "" {
+			out = append(out, "T:"+text)
+			text = ""
+		}
+	}
+	dropNL := false
+	for {
+		tt := z.Next()
+		if tt == xhtml.ErrorToken {
+			break
+		}
+		switch tt {
+		case xhtml.CommentToken:
+			if bytes.HasPrefix(z.Raw(), []byte("<!--")) {
+				dropNL = false
+				continue
+			}
+			flush()
+			out = append(out, string(z.Raw()))
+		case xhtml.TextToken:
+			t := string(z.Text())
+			if dropNL && strings.HasPrefix(t, "\n") {
+				t = t[1:]
+			}
+			text += t
+		default:
+			flush()
+			raw := string(z.Raw())
+			out = append(out, raw)
+			if tt == xhtml.StartTagToken {
+				n, _ := z.TagName()
+				if name := string(n); name == "pre" || name == "textarea" || name == "listing" {
+					dropNL = true
+					continue
+				}
+			}
+		}
+		dropNL = false
+	}
+	flush()
+	return out
+}
+
+// c16OracleNothingElse: the comment options do nothing but keep comments — the output with the option(s) and the output
+// without them (all other options equal) are the same document once comments are ignored
+func c16OracleNothingElse(on, off []byte) string {
+	a, b := c16NoCommentForm(on), c16NoCommentForm(off)
+	for i := 0; i < len(a) || i < len(b); i++ {
+		x, y := "<end>", "<end>"
+		if i < len(a) {
+			x = a[i]
+		}
+		if i < len(b) {
+			y = b[i]
+		}
+		if x != y {
+			return fmt.Sprintf("apart from comments the outputs differ at item %d: with the option %q, without %q", i, x, y)
+		}
+	}
+	return ""
+}
+
+// c16PreTexts: the character data of every pre/textarea/listing element as the parser delivers it (comments ignored, the
+// newline directly behind the start tag dropped)
+func c16PreTexts(b []byte) []string {
+	var out []string
+	items := c16NoCommentForm(b)
+	depth, cur := 0, ""
+	for _, it := range items {
+		switch {
+		case strings.HasPrefix(it, "T:"):
+			if depth > 0 {
+				cur += it[2:]
+			}
+		case strings.HasPrefix(it, "</"):
+			n := strings.ToLower(strings.TrimRight(strings.TrimSpace(it[2:]), "> \t\n"))
+			if (n == "pre" || n == "textarea" || n == "listing") && depth > 0 {
+				depth--
+				if depth == 0 {
+					out = append(out, cur)
+					cur = ""
+				}
+			}
+		case strings.HasPrefix(it, "<"):
+			n := strings.ToLower(it[1:])
+			for _, t := range []string{"pre", "textarea", "listing"} {
+				if strings.HasPrefix(n, t) && len(n) > len(t) && strings.ContainsAny(n[len(t):len(t)+1], " \t\n/>") {
+					depth++
+				}
+			}
+		}
+	}
+	if depth > 0 {
+		out = append(out, cur)
+	}
+	return out
+}
+
+// preformatted text is never touched, whatever the options
+func c16OraclePreText(in, out []byte) string {
+	a, b := c16PreTexts(in), c16PreTexts(out)
+	if len(a) != len(b) {
+		return c16Skip
+	}
+	for i := range a {
+		if a[i] != b[i] {
+			return fmt.Sprintf("text of preformatted element %d: %q in the input, %q in the output", i, a[i], b[i])
+		}
+	}
+	return ""
+}
+
 // ---------- HTML oracles ----------
 
 func c16IsSpecialComment(raw string) (special, ssi, complete bool) {
@@ -859,6 +979,14 @@ func c16SelfTest() error {
 		{"KeepSpecialComments/opener", func() string {
 			return c16OracleKeepSpecial(H("<!--[if IE 6]>x<![endif]-->"), H("<!--[if IE]>x<![endif]-->"), false)
 		}, func() string { return "" }},
+		{"nothing-else", func() string {
+			return c16OracleNothingElse([]byte("<pre><!--c-->\n\nx</pre>"), []byte("<pre>\n\nx</pre>"))
+		}, func() string {
+			return c16OracleNothingElse([]byte("<p>a <!--c-->b<pre><!--c-->\nx</pre><!--[if IE]><p>y<![endif]-->"), []byte("<p>a b<pre>\n\nx</pre>"))
+		}},
+		{"nothing-else/space", func() string { return c16OracleNothingElse([]byte("<p>a<!--c-->b"), []byte("<p>a b")) }, func() string { return "" }},
+		{"pre-text", func() string { return c16OraclePreText([]byte("<pre><!--c-->\nx</pre>"), []byte("<pre><!--c-->\n\nx</pre>")) },
+			func() string { return c16OraclePreText([]byte("<pre><!--c-->\nx</pre><pre>\n a  b </pre>"), []byte("<pre>\n\nx</pre><pre>\n a  b </pre>")) }},
 		{"KeepEndTags", func() string { return first(c16OracleKeepEndTags(H("<ul><li>a</li><li>b</li></ul>"), H("<ul><li>a<li>b</ul>"), false, true)) },
 			func() string { return first(c16OracleKeepEndTags(H("<script></script><ul><li>a</li></ul><body class=a></body>"), H("<ul><li>a</li></ul><body class=a>"), false, true)) }},
 		{"KeepEndTags/K1-fixed", func() string { return first(c16OracleKeepEndTags(H("<body class=a><p>x</p></body>"), H("<body class=a><p>x</p>"), false, false)) },
@@ -1100,13 +1228,13 @@ func (g c16Gen) flow(depth int, open, close string) string {
 			case 1:
 				b.WriteString("<select><option>1</option> <option>2" + g.pick("</option>", "") + "</select>")
 			case 2:
-				b.WriteString("<pre>" + g.pick(" a  b ", "\nx\n", "<!-- pc -->\n y") + "</pre>")
+				b.WriteString("<pre>" + g.pick(" a  b ", "\nx\n", "<!-- pc -->\n y", "<!--[if IE]>a<![endif]-->\nx", "<!--# include file=\"a\" -->\r\nz", "\n<!-- c -->\nq", "<!-- c1 --><!-- c2 -->\n\nw", "<b><!-- c -->\nv</b>") + "</pre>")
 			case 3:
 				b.WriteString("<script" + g.attrs("script", open, close) + ">" + g.pick("", "var a = 1;", "x()") + "</script>")
 			case 4:
 				b.WriteString("<style" + g.attrs("style", open, close) + ">" + g.pick("", "a{color:red}") + "</style>")
 			case 5:
-				b.WriteString("<dl><dt>t</dt><dd>" + g.word() + g.pick("</dd>", "") + "</dl>")
+				b.WriteString(g.pick("<dl><dt>t</dt><dd>"+g.word()+g.pick("</dd>", "")+"</dl>", "<textarea><!-- t -->\n a  b </textarea>", "<textarea>\n\nq</textarea>"))
 			}
 		default:
 			b.WriteString(g.text())
